@@ -792,7 +792,7 @@ theorem struct_node_exec {P : Program} {depth : Node → Nat} {s s1 : St} (hs : 
   refine Struct.close hs ⟨tkt, htkt, rfl⟩ e hlen ?_ ?_ ?_ ?_ ?_ ?_ ?_ ?_
   · -- the storage part
     refine ⟨fun n => ⟨by rw [show (s1.setTask t _).resHid = s1.resHid from rfl, hrh]; exact (hd.noHid n).1, hph n⟩,
-      fun n v h => hd.noRec n v (by rw [← hres]; exact h), ?_, ?_, ?_, ?_, ?_, ?_, ?_, ?_⟩
+      fun n v h => hd.noRec n v (by rw [← hres]; exact h), ?_, ?_, ?_, ?_, ?_, ?_, ?_, ?_, ?_⟩
     · intro n hn
       rcases hprocs n hn with rfl | h
       · exact Or.inr ⟨t, _, by rw [getElem?_close hlt, if_pos rfl], hlive, d, false, pc', rfl, hpc'⟩
@@ -821,6 +821,10 @@ theorem struct_node_exec {P : Program} {depth : Node → Nat} {s s1 : St} (hs : 
     · intro n hn
       have := hd.c6 n (by rw [← hres]; exact hn)
       exact e.proc n this
+    · intro n hn
+      rcases hprocs n hn with rfl | h
+      · exact hns
+      · exact hd.procPlain n h
     · refine uniq_close e hd htkt ?_ (fun i tk hi h => absurd h (fun h'' => hnonew i tk hi h''))
       intro d1 q1 f1 pc1 hfr hpc1 j tj d2 f2 p2 hjt hj hfj hp2
       simp only [List.cons.injEq, Frame.node.injEq, and_true] at hfr
@@ -866,7 +870,7 @@ theorem ldata_same {P : Program} {t : Nat} {s s1 : St} (hd : LData P s) (e : Ext
     LData P (s1.setTask t tk') := by
   refine ⟨fun n => ⟨by rw [show (s1.setTask t tk').resHid = s1.resHid from rfl, hrh]; exact (hd.noHid n).1,
       by rw [show (s1.setTask t tk').procHid = s1.procHid from rfl, hph]; exact (hd.noHid n).2⟩,
-    fun n v h => hd.noRec n v (by rw [← hres]; exact h), ?_, ?_, ?_, ?_, ?_, ?_, ?_, ?_⟩
+    fun n v h => hd.noRec n v (by rw [← hres]; exact h), ?_, ?_, ?_, ?_, ?_, ?_, ?_, ?_, ?_⟩
   · intro n hn
     have hn' : s.proc n = true := by rw [← hproc]; exact hn
     rcases hd.c1 n hn' with h | h
@@ -890,6 +894,8 @@ theorem ldata_same {P : Program} {t : Nat} {s s1 : St} (hd : LData P s) (e : Ext
   · intro n hn
     rw [show (s1.setTask t tk').proc = s1.proc from rfl, hproc]
     exact hd.c6 n (by rw [← hres]; exact hn)
+  · intro n hn
+    exact hd.procPlain n (by rw [← hproc]; exact hn)
   · refine uniq_close e hd htkt ?_ (fun i tk hi h => (hsp i tk hi h).2)
     intro d1 q1 f1 pc1 hfr hpc1
     rw [hnew d1 q1 f1 pc1 hfr] at hpc1; cases hpc1
@@ -1180,7 +1186,7 @@ theorem struct_node_done {P : Program} {depth : Node → Nat} (hp : LiveP P dept
     · rw [show (St.setTask _ t _).procHid = (nodeFinally P s0 d q true).procHid from rfl, f4]
       exact hph n
   refine Struct.close hs ⟨tkt, htkt, rfl⟩ e (len_ne_one hs htkt hnc) ?_ ?_ ?_ ?_ ?_ ?_ ?_ ?_
-  · refine ⟨hnoHid, ?_, ?_, ?_, ?_, ?_, ?_, ?_, ?_, ?_⟩
+  · refine ⟨hnoHid, ?_, ?_, ?_, ?_, ?_, ?_, ?_, ?_, ?_, ?_⟩
     · intro n v h
       rw [show (St.setTask _ t _).res = (nodeFinally P s0 d q true).res from rfl, f1] at h
       by_cases hnq : n = q
@@ -1250,6 +1256,11 @@ theorem struct_node_done {P : Program} {depth : Node → Nat} (hp : LiveP P dept
       by_cases hnq : n = q
       · rw [hnq]; exact hpq
       · exact hprocm n (hd.c6 n (by rw [← hresn n hnq]; exact hn))
+    · intro n hn
+      rw [show (St.setTask _ t _).proc = (nodeFinally P s0 d q true).proc from rfl, f3] at hn
+      rcases hprocs n hn with rfl | h
+      · exact hns
+      · exact hd.procPlain n h
     · refine uniq_close e hd htkt ?_ (fun i tk hi h => absurd h (fun h' => hnonew i tk hi h'))
       intro d1 q1 f1' pc1 hfr
       cases hfr
@@ -1322,10 +1333,10 @@ inductive LRole (P : Program) (depth : Node → Nat) (s : St) (tkt : Task) (d : 
   | sw (d' : DagRef) (S : Node) : tkt.name = .node S → P.g.isSwitch S = true → SubOK' P depth s d S →
       LRole P depth s tkt d [.switchRet d' S]
 
-/-- the situation while the launch loop of task `t` runs: the state `s1` is the state `s` at the beginning of the
+/-- the situation during a section of a launching task `t`: the state `s1` is the state `s` at the beginning of the
 section plus the freshly created tasks -/
-structure LCtx (P : Program) (depth : Node → Nat) (s s1 : St) (t : Nat) (tkt : Task) (d : DagRef) (below : List Frame)
-    (rest : List Node) : Prop where
+structure LBase (P : Program) (depth : Node → Nat) (s s1 : St) (t : Nat) (tkt : Task) (d : DagRef) (below : List Frame) :
+    Prop where
   hs     : Struct P depth s
   htkt   : s.tasks[t]? = some tkt
   hrt    : ∃ rv, tkt.st = .runnable rv
@@ -1345,6 +1356,10 @@ structure LCtx (P : Program) (depth : Node → Nat) (s s1 : St) (t : Nat) (tkt :
   ev     : s1.evSet = s.evSet
   proc   : s1.proc = s.proc
   fresh  : ∀ (i : Nat) (tk : Task), s.tasks.length ≤ i → s1.tasks[i]? = some tk → FreshTask P tk
+
+/-- … in the launch loop, with `rest` still to be launched -/
+structure LCtx (P : Program) (depth : Node → Nat) (s s1 : St) (t : Nat) (tkt : Task) (d : DagRef) (below : List Frame)
+    (rest : List Node) : Prop extends LBase P depth s s1 t tkt d below where
   passed : ∀ q ∈ d.nodes, q ∉ rest → Launched P s1 q
   sub    : ∀ q ∈ rest, q ∈ d.nodes
   topo   : TopoRest P rest
@@ -1654,5 +1669,70 @@ theorem struct_dagLaunch {P : Program} {depth : Node → Nat} (hp : LiveP P dept
       rw [block_eq c s1 obs _ _ x.self1]
       refine struct_launch_block x hmc ?_ _ rfl hmc rfl rfl
       rw [← hcP]; simpa using hr
+
+/-! ### `_run_switch` -/
+
+theorem fields_notifyAll (ks : List Key) : ∀ (s : St), (notifyAll s ks).res = s.res ∧ (notifyAll s ks).resHid = s.resHid ∧
+    (notifyAll s ks).procHid = s.procHid ∧ (notifyAll s ks).sw = s.sw ∧ (notifyAll s ks).evSet = s.evSet ∧
+    (notifyAll s ks).proc = s.proc := by
+  induction ks with
+  | nil => intro s; exact ⟨rfl, rfl, rfl, rfl, rfl, rfl⟩
+  | cons k ks ih => intro s; simp only [Eng.notifyAll, List.foldl_cons]; exact ih (notify s k)
+
+/-- `_run_switch` returns: it notifies the consumers of the switch and ends -/
+theorem struct_switch_ret {P : Program} {depth : Node → Nat} (hp : LiveP P depth) {s : St} (hs : Struct P depth s) {t : Nat}
+    {tkt : Task} (htkt : s.tasks[t]? = some tkt) {d : DagRef} {S : Node} (hnm : tkt.name = .node S)
+    (hS : P.g.isSwitch S = true) (hf0 : tkt.frames = [.switchRet d S]) (hrt : ∃ rv, tkt.st = .runnable rv)
+    (hok : ∃ l c, s.sw S = some (l, c) ∧ Launched P s c) (tk' : Task) (hnm' : tk'.name = tkt.name)
+    (hmc' : tk'.mustCancel = false) (hfr : tk'.frames = []) (hst : tk'.st = .done .ok) :
+    Struct P depth ((notifyAll s ((P.g.desc1 S).map Key.node)).setTask t tk') := by
+  have hnc : tkt.name ≠ .caller := by rw [hnm]; intro h; cases h
+  have hrt0 : ∀ tk0, s.tasks[t]? = some tk0 → ∃ rv, tk0.st = .runnable rv := by
+    intro tk0 h; rw [htkt] at h; cases h; exact hrt
+  have e : Ext t s (notifyAll s ((P.g.desc1 S).map Key.node)) := Ext.notifyAll _ hrt0
+  obtain ⟨f1, f2, f3, f4, f5, f6⟩ := fields_notifyAll ((P.g.desc1 S).map Key.node) s
+  have hnonew : ∀ (i : Nat) (tk : Task), s.tasks.length ≤ i →
+      (notifyAll s ((P.g.desc1 S).map Key.node)).tasks[i]? = some tk → False := by
+    intro i tk hi h
+    have := getElem?_lt h
+    rw [len_notifyAll] at this
+    omega
+  have h2 := two_nodes hp.sw
+  refine Struct.close_same hs htkt hnm' hrt (len_ne_one hs htkt hnc) e f1 f2 f3 f4 f5 f6 hmc' ?_ ?_ ?_ ?_ ?_ ?_ ?_
+    (fun i tk hi h => absurd h (fun h' => hnonew i tk hi h'))
+  · intro d' n f pc hf; rw [hf0] at hf; simp at hf
+  · intro d' n f pc hf; rw [hfr] at hf; simp at hf
+  · intro x hx; rw [hst] at hx; cases hx
+  · obtain ⟨l, c, h1, h2'⟩ := hok
+    refine .swDone tk' S .ok (by rw [hnm']; exact hnm) hS hfr hst (by intro h; cases h) ?_
+    intro _
+    refine ⟨l, c, by rw [show (St.setTask _ t tk').sw = (notifyAll s ((P.g.desc1 S).map Key.node)).sw from rfl, f4]; exact h1, ?_⟩
+    refine h2'.close e htkt hnm' ?_
+    intro d' hf; rw [hf0] at hf; simp at hf
+  · intro d' q hf; rw [hf0] at hf; simp at hf
+  · intro S' ho
+    obtain ⟨i, tk, hi, hnd', hfr'⟩ := ho
+    by_cases hit : i = t
+    · subst hit
+      rw [htkt] at hi; cases hi
+      have hSS : S' = S := by
+        rcases hfr' with ⟨d1, h'⟩ | ⟨d1, h'⟩ | ⟨d1, s1', h'⟩ | ⟨d1, s1', r1, h'⟩ <;> rw [hf0] at h' <;> simp at h'
+        exact h'.2.symm
+      subst hSS
+      right
+      intro m hm
+      right
+      obtain ⟨e2, he2, hu2, hv2⟩ := mem_basePreds_edge hm
+      refine notifyAll_noneBlocked _ _ _ (List.mem_map.mpr ⟨m, ?_, rfl⟩)
+      have := mem_desc1_of_edge P.g e2 he2 (by intro h; rw [h] at h2; simp at h2)
+      rw [hu2, hv2] at this; exact this
+    · obtain ⟨tk1, h1, te⟩ := e.old i tk hi hit
+      exact Or.inl ⟨i, tk1, by rw [getElem?_close (e.lt htkt), if_neg hit]; exact h1, te.nonDone hnd',
+        by rw [te.frames]; exact hfr'⟩
+  · intro ht0
+    subst ht0
+    obtain ⟨tk0, h0, hn0⟩ := hs.caller
+    rw [h0] at htkt; cases htkt
+    exact absurd hn0 hnc
 
 end MLPE.Eng
